@@ -174,8 +174,13 @@ Definition runk (k : opk) (n a : Z) (o : operand) : res (Z * Z) :=
         m2.append(f'Bits({n}, {o}, trunc_int={tr})')
         ctx.count(('init', n, o, tr), True, cls='init' + (':err' if t.startswith('Err') else ''))
       if 1 <= n <= 1023 and o[0] in ('int', 'bits', 'other'):
-        for kind, meth in (('KImatmul', '__imatmul__'), ('KIlshift', '__ilshift__')):
+        for kind, meth in (('KImatmul', '__imatmul__'), ('KIlshift', '__ilshift__'), ('KImatmul', '__imatmul__'), ('KIlshift', '__ilshift__')):
           u0, nx0 = rng.getrandbits(n), rng.getrandbits(n)
+          # second round: the assigned value equals the CURRENT value (or the pending next value)
+          if len(c2) % 2 == 1 and o[0] in ('int', 'bits') and (o[0] == 'int' or o[1] == n):
+            val = o[1] if o[0] == 'int' else o[2]
+            if 0 <= val < (1 << n): u0 = val
+            if rng.random() < 0.3: nx0 = u0
           def g():
             x = Bits(n, u0); x._next = nx0
             y = Bits(o[1], o[2]) if o[0] == 'bits' else (o[1] if o[0] == 'int' else None)
